@@ -202,6 +202,16 @@ func (c *FnCtx) declare(name, srt string) string {
 			}
 			c.strConsts[name] = true
 		}
+		if strings.HasPrefix(name, "HE_any@") || strings.HasPrefix(name, "HMV_string_any@") {
+			// type invariant of the value heaps: every stored element is a valid interface value
+			idx := "Int"
+			if strings.HasPrefix(name, "HMV_") {
+				idx = "Str"
+			}
+			c.decls = append(c.decls, fmt.Sprintf("(declare-const %s %s)", name, srt))
+			c.decls = append(c.decls, fmt.Sprintf("(assert (forall ((r Int) (i %s)) (! (validVal (select (select %s r) i)) :pattern ((select (select %s r) i)))))", idx, name, name))
+			return name
+		}
 		if strings.HasPrefix(name, "HE_uint8@") {
 			// type invariant of byte arrays: every element is a byte (stores are of byte-typed values)
 			c.decls = append(c.decls, fmt.Sprintf("(declare-const %s %s)", name, srt))
